@@ -415,3 +415,20 @@ pub fn zst_universe() -> Universe {
     u.subjects = s;
     u
 }
+
+
+/// Ranges over an index type whose size is not a power of two (label "odd"): the alignment unit the crate
+/// assigns to them is `size_of::<Self>()`, e.g. 3 for `RangeTo<[u8; 3]>` (O14). Only C07 uses this universe.
+pub fn odd_universe() -> Universe {
+    use Prim::*;
+    let mut u = Universe { label: "odd".into(), adts: vec![], subjects: vec![], pairs: vec![] };
+    let idx = [Ty::arr(p(U8), 3), Ty::tup(p(U16), 3), Ty::arr(p(U32), 3), Ty::arr(p(U8), 5)];
+    for i in idx {
+        for k in [RangeKind::RangeTo, RangeKind::RangeToInclusive] {
+            let r = Ty::range(k, i.clone());
+            u.subjects.push(Ty::vec(r.clone()));
+            u.subjects.push(Ty::arr(r.clone(), 2));
+        }
+    }
+    u
+}
